@@ -203,6 +203,18 @@ func regionFuncs(fn *ssa.Function) []*ssa.Function {
 	return out
 }
 
+// optFuncs resolves the specs that still exist (helpers that may have been
+// inlined into their callers); the rule using them must not depend on any one.
+func optFuncs(p *Prog, specs ...string) []*ssa.Function {
+	var out []*ssa.Function
+	for _, s := range specs {
+		if fn := p.FuncOpt(s); fn != nil {
+			out = append(out, fn)
+		}
+	}
+	return out
+}
+
 // allowedVia: fn's top-level function is allowed, or it is new since the anchor
 // snapshot and every function calling it is (recursively, three levels) — code
 // moved out of allowed functions into a shared helper stays allowed.
